@@ -473,9 +473,8 @@ pub fn run_c04(ctx: &mut Ctx) {
         ctx.count(src.name());
         // judged call first (see run_c03): a statistics-only parse must not absorb state left by the previous input
         ctx.judge_bytes(b, &mut |c| parse::c04_check(c));
-        if let Ok(Ok(l)) = guard(|| Locale::from_bytes(b)) {
+        if let Some(s) = mon::take_text() {
             ctx.count("value:parsed-locale");
-            let s = l.to_string(); 
             ctx.sig(SigH::new(4).b(s.as_bytes()).fin());
             if ctx.wants_sample("parsed") && s.len() > 12 {
                 ctx.sample("parsed", || json!({"input": String::from_utf8_lossy(b), "to_string": s}));
@@ -495,14 +494,13 @@ pub fn run_c05(ctx: &mut Ctx) {
         ctx.count(src.name());
         // judged call first (see run_c03): a statistics-only parse must not absorb state left by the previous input
         ctx.judge_bytes(b, &mut |c| parse::c05_check(c));
-        if let Ok(Ok(l)) = guard(|| Locale::from_bytes(b)) {
+        if let Some(s) = mon::take_text() {
             ctx.count("value:parsed-locale");
-            let s = l.to_string(); 
             if crate::refspec::n_subtags(s.as_bytes()) >= 2 {
                 ctx.sig(SigH::new(5).b(s.as_bytes()).fin());
             }
             if ctx.wants_sample("parsed") && s.len() > 12 {
-                ctx.sample("parsed", || json!({"input": String::from_utf8_lossy(b), "to_string": s, "round_trips": s.parse::<Locale>().ok().map(|x| x == l)}));
+                ctx.sample("parsed", || json!({"input": String::from_utf8_lossy(b), "to_string": s}));
             }
         }
     });
